@@ -1,19 +1,454 @@
-import Pm.Dev2Proof
+import Pm.IsolationProof
 /-! # C11 — clients are isolated from one another
 
-Property theorems only (helper lemmas live in `Pm/Dev2Proof.lean`).  The model they speak about
-(`Pm.Dev2`) is the mirror of `device.c` compared with the real functions on every run of the check.
+*"Replies, status results, telemetry and diagnostics produced for one client's request are delivered to that client only,
+and each request's result reflects only the actions that request enqueued even when other clients operate on the same nodes
+at the same time.  A client has at most one request in progress (further lines are answered 'command in progress'); a client
+that disconnects or stops reading at any moment does not cancel device actions already queued for it and does not disturb,
+delay or leak output into any other session."*
 
-Ranking (DESIGN §6): routing (device half: done) ▸ client half of routing ▸ departure ▸ back-pressure. -/
+Property theorems only (helper lemmas live in `Pm/IsolationProof.lean`, `Pm/Dev2Proof.lean`, `Pm/FrameDev.lean`,
+`Pm/FrameProof.lean`, `Pm/ReplyProof.lean`, `Pm/ClientProof.lean`, `Pm/EnqProof.lean`).  Everything is stated over the mirrors
+that the differential harness compares with the C code on every run of the checks: `Pm.Dev2` (`device.c`) and `Pm.Daemon`
+(`client.c` and the body of `powermand.c:_select_loop`).
+
+Vocabulary:
+
+* `cliRec w g` — the record `_find_client(g)` finds in world `w` (the first one with id `g`; under `IdsFresh` the only one);
+* `outCid x` — the client id a device callback `x` (`Out.finish`/`Out.telemetry`/`Out.diag`) carries; `mine g x` — it is `g`;
+* `applyOuts w name outs` — the callbacks `outs` of device `name` delivered to the clients (`_act_finish`,
+  `_telemetry_printf`, `_diag_printf`); `devStep p w o nd` — device `nd`'s own share of `dev_post_poll`;
+  `devPass p a nd` — that share followed by the delivery of its callbacks; `afterStep w c` — the world between the two;
+* `OwnView g w w'` — `w` and `w'` have the same record for `g` and, if `g` has a command, the same arglist for it;
+* `Enq cid w w' cmd cmd'` — what the request lines of client `cid` did to the queues: nothing, or one `install`;
+* `PassIso w c r ext` — the frame of `clientPass w c e = r` (one client's share of `cli_post_poll`), `ext` the system calls
+  it logged; `ClientPf.cliStep envs w c` — one turn of the loop of `cli_post_poll` (the share, then the record is written
+  back or unlinked);
+* `IdsFresh w`, `ArgScope w`, `Iso w` — the id discipline, the arglist discipline, both.
+
+Ranking (DESIGN §6): routing (done, both halves) ▸ departure (done) ▸ one command (done) ▸ result scope (done, with the
+hypothesis `k.al ≠ 0`, see the finding in `Props/C05`) ▸ ids (done for `Nat` ids; the C counter wraps) ▸ back-pressure (frame
+only: `_partial`). -/
 namespace Pm.Props.C11
-open Pm.Dev2
+open Pm Pm.Client Pm.Daemon Pm.Daemon.Isolation
+open Pm.Dev2 (CS Oracle Time Dev Action ActErr outCid processAction)
+
+/-! ## 1. Routing -/
 
 /-- Device half of the routing invariant: whatever a pass of `_process_action` reports as finished —
     for every queue, script, oracle answer and kernel answer — carries the client id of an action
     that was in *that device's* queue when the pass began.  A completion can therefore only ever reach
     the client that enqueued it (`_act_finish` looks the client up by exactly this id). -/
 theorem C11_completions_owned (c : CS) (o : Oracle) (tmo : Option Time) :
-    ∀ cid e, Out.finish cid e ∈ (processAction c o [] tmo).2.2.1 → ∃ a ∈ c.dev.acts, a.clientId = cid :=
-  processAction_finishes_owned c o tmo
+    ∀ cid e, Pm.Dev2.Out.finish cid e ∈ (processAction c o [] tmo).2.2.1 → ∃ a ∈ c.dev.acts, a.clientId = cid :=
+  Pm.Dev2.processAction_finishes_owned c o tmo
+
+/-- The same for all three callbacks and for the whole of `dev_post_poll` (`_handle_ready_device`, `_reconnect`,
+    `_enqueue_ping`, `_process_action`): every completion, telemetry line and diagnostic that device `nd` produces in a
+    pass carries the client id of an action that was in `nd`'s queue when the pass began — or `0`, the id of the internal
+    login/ping actions, which no client has (`IdsFresh.pos`). -/
+theorem C11_routing_device_half (p : PassIn) (w : W) (o : Oracle) (nd : Bytes × Dev) :
+    ∀ x ∈ (devStep p w o nd).2.2.1, ∀ cid, outCid x = some cid → cid = 0 ∨ ∃ a ∈ nd.2.acts, a.clientId = cid :=
+  devStep_addr p w o nd
+
+/-- **Client half.**  `applyOuts` delivers the callbacks of one device to the clients.
+
+    1. *Only the addressee changes.*  If no callback in `outs` carries the id `g`, client `g`'s record (output buffer,
+       command in progress, pending count, flags) is exactly what it was; and nothing in the world but client records is
+       ever changed.
+    2. *What the addressee gets depends on its own callbacks only.*  Take two runs for the same device: the worlds `w`, `w'`
+       may differ in everything except `g`'s record and the arglist of `g`'s command (`OwnView`), and the callback lists
+       `outs`, `outs'` may differ in everything except the callbacks carrying `g`'s id (same ones, same order).  Then `g`'s
+       record — in particular the bytes appended to its output buffer — is the same after both runs.  So what client `g`
+       is sent is a function of the callbacks addressed to `g`, of `g`'s own record and of `g`'s own arglist: never of a
+       callback addressed to somebody else, of another client's record or of another arglist. -/
+theorem C11_routing_client_half (w : W) (name : Bytes) (outs : List DOut) (g : Nat) :
+    ((∀ x ∈ outs, outCid x ≠ some g) →
+        cliRec (applyOuts w name outs).1 g = cliRec w g ∧ sansClients (applyOuts w name outs).1 = sansClients w) ∧
+    (∀ (w' : W) (outs' : List DOut), OwnView g w w' → outs.filter (mine g) = outs'.filter (mine g) →
+        cliRec (applyOuts w name outs).1 g = cliRec (applyOuts w' name outs').1 g ∧
+        OwnView g (applyOuts w name outs).1 (applyOuts w' name outs').1) :=
+  ⟨fun h => applyOuts_untouched w name outs g h,
+   fun w' outs' hv hf => ⟨(applyOuts_own w w' name outs outs' g hv hf).1, applyOuts_own w w' name outs outs' g hv hf⟩⟩
+
+/-- Item 1 position by position in the client table (this form does not rely on the ids being distinct): the table keeps
+    its length, every position keeps its id, and a record whose id no callback carries is exactly what it was. -/
+theorem C11_routing_table (w : W) (name : Bytes) (outs : List DOut) :
+    (applyOuts w name outs).1.clients.length = w.clients.length ∧
+    ∀ (i : Nat) (c : Cli), w.clients[i]? = some c → ∃ c' : Cli, (applyOuts w name outs).1.clients[i]? = some c' ∧ c'.id = c.id ∧
+      ((∀ x ∈ outs, outCid x ≠ some c.id) → c' = c) :=
+  ⟨applyOuts_length w name outs, fun i c h => applyOuts_table w name outs i c h⟩
+
+/-- **Both halves, for one device's share of a pass** (`devPass`, any device state, kernel answers and regex answers; `a.dead`
+    is the model's flag for a C `assert` that fired earlier in the pass).  For a client id `g ≠ 0`:
+
+    1. a callback carrying `g`'s id stems from the device's own queue: an action with `clientId = g` was queued on this
+       device when the pass began;
+    2. `g`'s record after the device's share is what `applyOuts` makes of the callbacks carrying `g`'s id *alone*: the
+       bytes appended to `g`'s buffer stem from those items and from nothing else the device reported;
+    3. hence a client with no action queued on the device is not touched by it at all. -/
+theorem C11_routing (p : PassIn) (a : DevAcc) (nd : Bytes × Dev) (g : Nat) (hg : g ≠ 0) (hd : a.dead = false) :
+    (∀ x ∈ (devStep p a.w a.oracle nd).2.2.1, outCid x = some g → ∃ act ∈ nd.2.acts, act.clientId = g) ∧
+    cliRec (devPass p a nd).w g =
+      cliRec (applyOuts (afterStep a.w (devStep p a.w a.oracle nd).1) nd.1
+        ((devStep p a.w a.oracle nd).2.2.1.filter (mine g))).1 g ∧
+    ((∀ act ∈ nd.2.acts, act.clientId ≠ g) → cliRec (devPass p a nd).w g = cliRec a.w g) :=
+  ⟨fun x hx hc => (devStep_addr p a.w a.oracle nd x hx g hc).resolve_left hg,
+   devPass_routing p a nd g hd, fun hq => devPass_client p a nd g hg hq⟩
+
+/-- **The other sessions are not even read.**  Two runs of one device's share of the pass, from accumulators that agree on
+    client `g`'s record, on the arglist store, on the descriptor/pid counters and on the regex answers, but are arbitrary
+    otherwise — other clients present or absent, idle or busy, with full or empty buffers: `g` ends with the same record
+    and the store is the same. -/
+theorem C11_routing_blind (p : PassIn) (a a' : DevAcc) (nd : Bytes × Dev) (g : Nat) (hd : a.dead = false) (hd' : a'.dead = false)
+    (hc : cliRec a.w g = cliRec a'.w g) (hs : a.w.store = a'.w.store)
+    (h1 : a.w.nsock = a'.w.nsock) (h2 : a.w.npair = a'.w.npair) (h3 : a.w.nfork = a'.w.nfork) (ho : a.oracle = a'.oracle) :
+    cliRec (devPass p a nd).w g = cliRec (devPass p a' nd).w g ∧ (devPass p a nd).w.store = (devPass p a' nd).w.store :=
+  devPass_own p a a' nd g hd hd' hc hs h1 h2 h3 ho
+
+/- non-vacuity (`Two`, in `Pm/IsolationProof.lean`: one device `A`, node `a1`; clients 1 and 2 both have `status a1` in
+   flight, world `Two.w3`, reached from the start-up world by three passes).  In pass `Two.p4` the device answers client 1's
+   action: the callbacks are the completion for client 1 and (`none`: the bytes sent for the next action) nothing for client
+   2; client 1 gets its reply, client 2's record is untouched although its action sits in the same queue and targets the
+   same node. -/
+example : Two.w3.clients.map (fun c => c.cmd.map fun k => k.names) = [some [['a', '1']], some [['a', '1']]] ∧
+    Two.w3.devs.map (fun nd => nd.2.acts.map fun a => (a.clientId, a.arglist)) = [[(1, 0), (2, 1)]] :=
+  ⟨Two.reached.2.2.1, Two.reached.2.2.2.2.1⟩
+example :
+    ((devStep Two.p4 Two.w3x ⟨Two.xs4⟩ ([65], (Two.w3x.devs.map (·.2)).headD Two.devA)).2.2.1.map outCid) = [some 1, none] ∧
+    (cliRec Two.w4 1).map (fun c => (c.toBuf.drop 17, c.cmd.isSome)) =
+      some (bstr "302 on:      a1\r\n302 off:     \r\n302 unknown: \r\n103 Query complete\r\npowerman> ", false) ∧
+    (cliRec Two.w4 2).map (fun c => (c.toBuf, c.cmd.map (·.pending))) = (cliRec Two.w3x 2).map (fun c => (c.toBuf, c.cmd.map (·.pending))) := by
+  decide +kernel
+
+/-! ## 2. Client ids -/
+
+/-- **The id discipline** `IdsFresh w`: the live clients' ids are pairwise distinct, positive and below the counter
+    `w.nextId` (`cli_id_seq`); every queued action carries a client id below the counter.  It holds at start-up and is kept
+    by `dev_initial_connect`, by `cli_post_poll` (accepting a connection, serving every client, destroying clients) and by
+    a whole pass of the select loop — hence in every reachable state.  (`Iso w` is `IdsFresh w ∧ ArgScope w`, see §4.)
+
+    LIMIT OF THE MODEL.  The model's ids are unbounded `Nat`s.  The C counter is an `int` that wraps from `INT_MAX` back to
+    `1` (`_next_cli_id`), after which a new client can be given the id of a client that is still connected or of a departed
+    client whose actions are still queued; this is a recorded finding (F17) and outside the model.  (With duplicate ids
+    the model would also differ from C in another way: `updCli` rewrites every record with the id, `_find_client` returns
+    the first.) -/
+theorem C11_ids :
+    (∀ w : W, w.clients = [] → (∀ nd ∈ w.devs, nd.2.acts = []) → 0 < w.nextId → IdsFresh w) ∧
+    (∀ (w : W) (acc : Nat) (envs : List FdEnv), IdsFresh w → IdsFresh (cliPostPoll w acc envs)) ∧
+    (∀ (w : W) (p : PassIn), IdsFresh w → IdsFresh (daemonPass w p).1) ∧
+    (∀ (w : W) (now con soe : Nat), Iso w → Iso (initialConnect w now con soe).1) ∧
+    (∀ (w : W) (ps : List PassIn), Iso w → Iso (runPasses w ps)) :=
+  ⟨fun w hc hq hn => (iso_init w hc hq hn).1, cliPostPoll_ids, daemonPass_ids, initialConnect_iso, runPasses_iso⟩
+
+/-- what `IdsFresh` says, spelled out -/
+theorem C11_ids_spelled (w : W) (h : IdsFresh w) :
+    (w.clients.map (·.id)).Nodup ∧ (∀ c ∈ w.clients, 0 < c.id ∧ c.id < w.nextId) ∧
+    (∀ nd ∈ w.devs, ∀ a ∈ nd.2.acts, a.clientId < w.nextId) ∧
+    (∀ c ∈ w.clients, cliRec w c.id = some c) :=
+  ⟨h.nodup, fun c hc => ⟨h.pos c.id (List.mem_map.mpr ⟨c, hc, rfl⟩), h.below c.id (List.mem_map.mpr ⟨c, hc, rfl⟩)⟩,
+   h.acts, fun _ hc => h.cliRec_of_mem hc⟩
+
+/-- **`accept`.**  The accept branch of `cli_post_poll` gives the new client the id `w.nextId` and increments the counter (a
+    failed `accept` consumes an id too); under the discipline that id is carried by no live client and by no queued action —
+    in particular not by the actions a departed client left behind — and it is not the internal id `0`. -/
+theorem C11_ids_accept (w : W) (h : IdsFresh w) :
+    (ClientPf.cliAccept w 1).clients = w.clients ++ [ClientPf.newClient w] ∧ (ClientPf.newClient w).id = w.nextId ∧
+    (ClientPf.cliAccept w 1).nextId = w.nextId + 1 ∧ (ClientPf.cliAccept w 2).nextId = w.nextId + 1 ∧
+    (∀ c ∈ w.clients, c.id ≠ (ClientPf.newClient w).id) ∧
+    (∀ nd ∈ w.devs, ∀ a ∈ nd.2.acts, a.clientId ≠ (ClientPf.newClient w).id) ∧ (ClientPf.newClient w).id ≠ 0 :=
+  ⟨rfl, rfl, rfl, rfl, newClient_fresh w h⟩
+
+/-- **`install`** (`_create_command` + `dev_enqueue_actions`) on a client without a command: either the request is refused
+    and queues, store and counter are what they were; or every device's queue is extended (`Enq.installDev`) by actions
+    that all carry the installing client's id `c.id`, its telemetry flag and the arglist id `w.alNext`, the arglist is
+    opened in the store under that id, the counter is incremented, and the client's new command refers to it.  No queued
+    action is dropped or altered. -/
+theorem C11_ids_install (w : W) (c : Cli) (com : Com) (names : List Name) (hidle : c.cmd = none) :
+    Enq c.id w (install w c com names).1 c.cmd (install w c com names).2.cmd ∧
+    (∀ nd' ∈ (install w c com names).1.devs, ∀ a ∈ nd'.2.acts,
+        (∃ nd ∈ w.devs, a ∈ nd.2.acts) ∨ (a.clientId = c.id ∧ a.arglist = w.alNext)) ∧
+    (∀ nd ∈ w.devs, ∀ a ∈ nd.2.acts, ∃ nd' ∈ (install w c com names).1.devs, nd'.1 = nd.1 ∧ a ∈ nd'.2.acts) :=
+  ⟨(install_iso w c com names hidle).enq, (install_iso w c com names hidle).enq.acts, (install_iso w c com names hidle).enq.acts_kept⟩
+
+/-- what `Enq` says, spelled out -/
+theorem C11_Enq_spelled (cid : Nat) (w w' : W) (cmd cmd' : Option CmdC) (h : Enq cid w w' cmd cmd') :
+    (w'.devs = w.devs ∧ w'.store = w.store ∧ w'.alNext = w.alNext ∧ cmd' = cmd) ∨
+    (cmd = none ∧ ∃ (k : CmdC) (args : List Pm.Dev2.Arg) (com : Nat) (bn : List Bytes) (tele : Bool),
+      cmd' = some k ∧ k.al = w.alNext ∧ w'.alNext = w.alNext + 1 ∧ w'.store = (w.alNext, args) :: w.store ∧
+      w'.devs = w.devs.map (Enq.installDev com bn cid tele w.alNext) ∧
+      ∀ nd ∈ w.devs, ∀ a ∈ (Enq.installDev com bn cid tele w.alNext nd).2.acts,
+        a ∈ nd.2.acts ∨ (a.clientId = cid ∧ a.arglist = w.alNext ∧ a.telemetry = tele)) := by
+  rcases h with h | ⟨hn, k, args, com, bn, tele, h1, h2, h3, h4, h5⟩
+  · exact Or.inl h
+  · exact Or.inr ⟨hn, k, args, com, bn, tele, h1, h2, h3, h4, h5, fun nd _ a ha => installDev_acts com bn cid tele w.alNext nd a ha⟩
+
+/- non-vacuity: the start-up world of the example satisfies the hypotheses of the first item; the world with both requests
+   in flight is reached from it by three passes, so it satisfies both disciplines; its ids, counter and queue are as
+   described -/
+example : Iso Two.w0 ∧ Iso Two.w3 := ⟨Two.iso0, Two.iso3⟩
+example : ids Two.w3 = [1, 2] ∧ Two.w3.nextId = 3 ∧
+    Two.w3.devs.map (fun nd => nd.2.acts.map fun a => (a.clientId, a.arglist)) = [[(1, 0), (2, 1)]] :=
+  ⟨Two.reached.1, Two.reached.2.2.2.2.2.1, Two.reached.2.2.2.2.1⟩
+
+/-! ## 3. One command per client -/
+
+/-- **A client has at most one request in progress.**
+
+    1. While a command is in progress, a request line — whatever it says — is answered with exactly the line
+       `208 Command in progress` appended to the client's own buffer (no prompt), and nothing else changes: not the
+       world, not the command, not the flags.
+    2. For every line, client and world: `parseLine` either leaves queues, arglist store and arglist counter alone and
+       keeps the client's command as it is, or performs one `install` — and the latter only when the client had no
+       command (`Enq`).  So a second command (a second arglist, a second batch of actions with this client's id) is never
+       created while one is pending.
+    3. When queues change at all, `parseLine` *is* a call of `install` made with `c.cmd = none`. -/
+theorem C11_one_command (w : W) (c : Cli) (line : Bytes) :
+    (c.cmd.isSome = true → parseLine w c line = (w, put c (bstr "208 Command in progress\r\n"))) ∧
+    Enq c.id w (parseLine w c line).1 c.cmd (parseLine w c line).2.cmd ∧
+    ((parseLine w c line).1.devs = w.devs ∨ ∃ com names, parseLine w c line = install w c com names ∧ c.cmd = none) := by
+  refine ⟨fun h => ?_, parseLine_enq w c line, ?_⟩
+  · rw [ClientPf.parseLine_busy w c line h]
+    have : ClientPf.render [ClientPf.item208] = bstr "208 Command in progress\r\n" := by decide +kernel
+    rw [this]
+  · rcases Enq.parseLine_cases w c line with h | ⟨com, names, h1, h2, _⟩
+    · exact Or.inl h
+    · exact Or.inr ⟨com, names, h1, h2⟩
+
+/-- The same over a client's whole share of a pass, however many lines it has sent: if it survives the pass, all its lines
+    together enqueued nothing or performed exactly one `install` (and none if it had a command when the pass began). -/
+theorem C11_one_command_pass (w : W) (c : Cli) (e : Option FdEnv) (c' : Cli) (h : (clientPass w c e).2 = some c') :
+    Enq c.id w (clientPass w c e).1 c.cmd c'.cmd ∧
+    (c.cmd.isSome = true → (clientPass w c e).1.devs = w.devs ∧ (clientPass w c e).1.store = w.store ∧
+      (clientPass w c e).1.alNext = w.alNext ∧ c'.cmd = c.cmd) := by
+  obtain ⟨ext, hp, _⟩ := clientPass_iso w c e
+  exact ⟨(hp.alive c' h).2.2.2.1, fun hb => (hp.alive c' h).2.2.2.1.busy hb⟩
+
+/- non-vacuity: client 1 of the example world has a command in progress; a second `status a1` from it is answered 208 and
+   the queue stays as it is -/
+example : ((cliRec Two.w3 1).map fun c => c.cmd.isSome) = some true := by decide +kernel
+example : (cliRec Two.w3 1).map (fun c => ((parseLine Two.w3 c Two.line).2.toBuf.drop c.toBuf.length,
+      (parseLine Two.w3 c Two.line).1.devs.map fun nd => nd.2.acts.length)) =
+    some (bstr "208 Command in progress\r\n", [2]) := by decide +kernel
+
+/-! ## 4. The scope of a result -/
+
+/-- **The arglist discipline** `ArgScope w`: every arglist id referred to by a client's command or carried by a client's
+    action is below the counter `w.alNext`; an action that carries the arglist id of client `g`'s command is `g`'s
+    action; two clients' commands refer to different arglists; the internal login/ping actions (client id `0`) carry the
+    dummy id `0`.  Together with `IdsFresh` it holds at start-up and is kept by `dev_initial_connect`, by
+    `cli_post_poll` and by every pass (`Iso`), hence in every reachable state. -/
+theorem C11_result_scope_invariant :
+    (∀ w : W, w.clients = [] → (∀ nd ∈ w.devs, nd.2.acts = []) → 0 < w.nextId → Iso w) ∧
+    (∀ (w : W) (now con soe : Nat), Iso w → Iso (initialConnect w now con soe).1) ∧
+    (∀ (w : W) (acc : Nat) (envs : List FdEnv), Iso w → Iso (cliPostPoll w acc envs)) ∧
+    (∀ (w : W) (p : PassIn), Iso w → Iso (daemonPass w p).1) :=
+  ⟨iso_init, initialConnect_iso, cliPostPoll_iso, daemonPass_iso⟩
+
+/-- what `ArgScope` says, spelled out -/
+theorem C11_ArgScope_spelled (w : W) (h : ArgScope w) :
+    (∀ g c k, cliRec w g = some c → c.cmd = some k → k.al < w.alNext) ∧
+    (∀ nd ∈ w.devs, ∀ a ∈ nd.2.acts, a.clientId ≠ 0 → a.arglist < w.alNext) ∧
+    (∀ g c k, cliRec w g = some c → c.cmd = some k → ∀ nd ∈ w.devs, ∀ a ∈ nd.2.acts, a.clientId ≠ 0 →
+        a.arglist = k.al → a.clientId = g) ∧
+    (∀ g g' c c' k k', cliRec w g = some c → cliRec w g' = some c' → c.cmd = some k → c'.cmd = some k' → k.al = k'.al → g = g') ∧
+    (∀ nd ∈ w.devs, ∀ a ∈ nd.2.acts, a.clientId = 0 → a.arglist = 0) :=
+  ⟨h.cmds, h.acts, h.owned, h.apart, h.internal⟩
+
+/-- **Each request's result reflects only the actions that request enqueued.**  Let client `g` have a command `k` in
+    progress, in a state that satisfies the arglist discipline; `k.al ≠ 0` (see the finding below).
+
+    1. *Fresh arglist.*  A new command gets the arglist id `w.alNext`, which is then incremented (§2, `C11_ids_install`); by
+       the discipline it differs from the arglist id of every other client's command, however much the targets overlap.
+    2. *A statement writes its own arglist only.*  One statement of a device script run on behalf of an action `x` — in
+       particular `setplugstate`/`setresult`, the only writers — leaves every arglist other than `x.arglist` as it is.
+    3. *Other people's actions do not carry `g`'s arglist id*: a queued action whose client id is not `g` (another client's,
+       or an internal one) has `x.arglist ≠ k.al`.  With 2: only `g`'s own actions ever write `g`'s arglist.
+    4. *Devices without an action of `g`* leave `g`'s arglist exactly as it is for a whole `devPass`.
+    5. *The reply is computed from that arglist alone*: when the last completion for `g` arrives, what `_act_finish`
+       appends to `g`'s buffer is the 308 line of that completion (if it failed), `finalReply` of `g`'s own command with
+       `g`'s own arglist as it then is in the store, and the prompt.
+
+    FINDING (hypothesis `k.al ≠ 0`, as in `Props/C05`).  The model gives the internal login and ping actions the dummy
+    arglist id `0`, which is also the id of the first command after start-up; in C they have `arglist == NULL`, and a
+    login/ping script containing `setplugstate`/`setresult` would dereference it.  The hypothesis excludes that one id. -/
+theorem C11_result_scope (w : W) (g : Nat) (c : Cli) (k : CmdC) (h : ArgScope w) (hc : cliRec w g = some c)
+    (hk : c.cmd = some k) (hal : k.al ≠ 0) :
+    (∀ g' c' k', cliRec w g' = some c' → c'.cmd = some k' → g' ≠ g → k'.al ≠ k.al) ∧
+    (∀ (d : Dev) (x : Action) (o : Oracle) (now : Nat), x.arglist ≠ k.al →
+        (Pm.Dev2.processStmt d x o now).dev.args.lookup k.al = d.args.lookup k.al) ∧
+    (∀ nd ∈ w.devs, ∀ x ∈ nd.2.acts, x.clientId ≠ g → x.arglist ≠ k.al) ∧
+    (∀ (p : PassIn) (a : DevAcc) (nd : Bytes × Dev) (rest : List (Bytes × Dev)), w = worldAt a (nd :: rest) →
+        (∀ x ∈ nd.2.acts, x.clientId ≠ g) → storeArgs (devPass p a nd).w k.al = storeArgs a.w k.al) ∧
+    (∀ (err : ActErr) (name r : Bytes), k.pending = 1 → finalReply c.exprange (Reply.withStore w k err) = some r →
+        cliRec (actFinish w g err name).1 g =
+          some { c with cmd := none, toBuf := c.toBuf ++ (Reply.errPre err name ++ r ++ prompt) }) := by
+  refine ⟨?_, ?_, ?_, ?_, ?_⟩
+  · intro g' c' k' hc' hk' hne e
+    exact hne (h.apart g' g c' c k' k hc' hc hk' hk e)
+  · intro d x o now hx
+    exact processStmt_own_arglist d x o now k.al (fun e => hx e.symm)
+  · intro nd hnd x hx hne
+    exact h.foreign hc hk hal hnd hx hne
+  · intro p a nd rest hw hq
+    subst hw
+    exact devPass_result_scope p a nd rest g c k h hc hk hal hq
+  · intro err name r hp hr
+    exact (Reply.actFinish_last w g err name c k r hc hk hp hr).2
+
+/-- what the reply reads of the store: `Reply.withStore w k err` is `k` with the error flag of the last completion or-ed in
+    and with `args` read from the store at `k.al` — no other arglist -/
+theorem C11_withStore_spelled (w : W) (k : CmdC) (err : ActErr) :
+    Reply.withStore w k err = { k with error := k.error || (err != .success), args := (storeArgs w k.al).map argC } := rfl
+
+/- non-vacuity: in the example pass the device runs `setplugstate` for client 1's action (arglist 0): afterwards arglist 0 says
+   `a1` is on and client 1's reply says so, while client 2's arglist 1 — same node, same device, same queue — still says
+   unknown; client 2 (arglist 1 ≠ 0) satisfies the hypotheses of the theorem in `Two.w3`, and the action of client 1 in the
+   queue does not carry its arglist id -/
+example : (storeArgs Two.w3x 0).map (fun a => psNum a.state) = [0] ∧ (storeArgs Two.w4 0).map (fun a => psNum a.state) = [2] ∧
+    (storeArgs Two.w3x 1).map (fun a => psNum a.state) = [0] ∧ (storeArgs Two.w4 1).map (fun a => psNum a.state) = [0] := by
+  decide +kernel
+example : ArgScope Two.w3 ∧ ((cliRec Two.w3 2).map fun c => c.cmd.map (·.al)) = some (some 1) :=
+  ⟨Two.iso3.2, by decide +kernel⟩
+
+/-! ## 5. Departure -/
+
+/-- **A client that goes away takes nothing with it.**  In one turn of the loop of `cli_post_poll` the client `c0` is
+    destroyed (`clientPass … = none`, the model's `goto client_dead`: ERR/NVAL on its descriptor, or it has quit / hit EOF
+    and no command of its is in progress).  Then:
+
+    * the devices are exactly what they were — every action queued for the client stays queued and will run;
+    * the arglist store and both counters are what they were; the daemon goes on (`exited = false`);
+    * the client table is the old one without the records of id `c0.id`: the record of every other client is untouched,
+      `c0.id` is no longer found;
+    * the only system calls logged are calls on `c0`'s own descriptor (at least its `close`), and no other descriptor's
+      write capacity is touched. -/
+theorem C11_departure (envs : List FdEnv) (w : W) (c0 : Cli) (hex : w.exited = false)
+    (h : (clientPass w c0 (envs.find? (·.fd == c0.fd))).2 = none) :
+    (ClientPf.cliStep envs w c0).devs = w.devs ∧ (ClientPf.cliStep envs w c0).store = w.store ∧
+    (ClientPf.cliStep envs w c0).alNext = w.alNext ∧ (ClientPf.cliStep envs w c0).nextId = w.nextId ∧
+    (ClientPf.cliStep envs w c0).exited = false ∧
+    (ClientPf.cliStep envs w c0).clients = w.clients.filter (fun x => x.id != c0.id) ∧
+    cliRec (ClientPf.cliStep envs w c0) c0.id = none ∧
+    (∀ g, g ≠ c0.id → cliRec (ClientPf.cliStep envs w c0) g = cliRec w g) ∧
+    ∃ ext, (ClientPf.cliStep envs w c0).sys = w.sys ++ ext ∧ (∀ s ∈ ext, sysFd s = some c0.fd) ∧
+      (∀ fd, fd ≠ c0.fd → capOf (ClientPf.cliStep envs w c0) fd = capOf w fd) :=
+  cliStep_departure envs w c0 hex h
+
+/-- `cli_post_poll` is the accept step followed by one such turn per client (the list of clients is the one at the
+    beginning of the loop) -/
+theorem C11_cliPostPoll_spelled (w : W) (acc : Nat) (envs : List FdEnv) :
+    cliPostPoll w acc envs =
+      (ClientPf.cliAccept { w with sys := [], caps := envs.map fun (e : FdEnv) => (e.fd, e.cap) } acc).clients.foldl (ClientPf.cliStep envs)
+        (ClientPf.cliAccept { w with sys := [], caps := envs.map fun (e : FdEnv) => (e.fd, e.cap) } acc) :=
+  ClientPf.cliPostPoll_eq w acc envs
+
+/-- **Completions that arrive later are dropped.**  A completion for an id no client has (`_find_client` returns `NULL`) changes
+    nothing and is not an error; more generally a whole batch of callbacks all of whose addressees are gone leaves the
+    world exactly as it is — nothing leaks into another session.  (By `C11_ids_accept` the id is never given to a later
+    client, as long as the C counter has not wrapped.) -/
+theorem C11_departure_late (w : W) (name : Bytes) :
+    (∀ id err, cliRec w id = none → actFinish w id err name = (w, false)) ∧
+    (∀ outs : List DOut, (∀ x ∈ outs, ∀ id, outCid x = some id → cliRec w id = none) → (applyOuts w name outs).1 = w) :=
+  ⟨fun id err h => actFinish_gone w id err name h, fun outs h => applyOuts_absent w name outs h⟩
+
+/- non-vacuity: in the example world client 1's descriptor reports POLLERR (`Two.pErr`): its `clientPass` returns `none`; after
+   the pass client 2 is the only client and is what it was, and the queue still holds both actions.  In the next pass the
+   device completes client 1's action: no `assert` fires, client 2's record is still what it was, and client 1's action has
+   left the queue -/
+example : (clientPass { Two.w3 with sys := [], caps := [(1000, 0)] } ((Two.w3.clients.headD { id := 0, fd := 0 }))
+    (Two.pErr.envs.find? (·.fd == 1000))).2.isNone = true := by decide +kernel
+example : ids Two.w3d = [2] ∧
+    (cliRec Two.w3d 2).map (fun c => (c.toBuf, c.cmd.map (·.pending))) = (cliRec Two.w3 2).map (fun c => (c.toBuf, c.cmd.map (·.pending))) ∧
+    Two.w3d.devs.map (fun nd => nd.2.acts.map fun a => (a.clientId, a.arglist)) = [[(1, 0), (2, 1)]] := by decide +kernel
+example : (daemonPass { Two.w3d with pendingX := Two.xs4 } Two.p4).2.all (fun l => !l.startsWith "O ABORT") = true ∧
+    (cliRec Two.w4d 2).map (fun c => (c.toBuf, c.cmd.map (·.pending))) = (cliRec Two.w3 2).map (fun c => (c.toBuf, c.cmd.map (·.pending))) ∧
+    Two.w4d.devs.map (fun nd => nd.2.acts.map fun a => (a.clientId, a.arglist)) = [[(2, 1)]] := by decide +kernel
+
+/-! ## 6. Back-pressure -/
+
+/- FULL STATEMENT AIMED AT (not proved): for a world with a client `s` that never reads (its descriptor accepts nothing)
+   and the same world without `s`, every other client is sent the same bytes in the same passes.
+
+   PROVED (`_partial`): the single-run *frame* of the client phase, which is what such a two-run statement would rest on —
+   a turn of the loop of `cli_post_poll` for one client (stuck or not) changes no other client's record, writes to no other
+   client's descriptor and consumes no other descriptor's write capacity (1, 2); a record is read and written in its own
+   turn only (2'); the turn of a client that is stuck *and silent* is the identity, so the loop runs as if it were absent
+   from the list being served (2''); a client whose descriptor is not reported
+   writable only accumulates output in its own buffer (3); a non-blocking descriptor that is reported writable but takes
+   nothing (the model's `cap = 0`: the `write` fails with EAGAIN, `cbuf_read_to_fd` returns -1) makes `_handle_write` mark
+   the client as gone — as coded, the client is then destroyed once its command is over (4).  MISSING: the two-run part (that the turn of client `x` *reads* nothing of
+   the other clients' records; it does read the devices, the store and `exited`, which another client's requests
+   legitimately change).  The blocking `write` after `quit` (known finding F23: the descriptor is made blocking and the
+   whole daemon sleeps in `write` until the peer reads) cannot be expressed in a model without time inside a pass: it
+   appears only as the `blocks` flag of the logged `Sys.write` (5). -/
+theorem C11_backpressure_partial (envs : List FdEnv) :
+    -- 1. one turn: the frame of `clientPass`, and no other client's record is touched
+    (∀ (w : W) (c0 : Cli), (∃ ext, PassIso w c0 (clientPass w c0 (envs.find? (·.fd == c0.fd))) ext) ∧
+        ∀ g, g ≠ c0.id → cliRec (ClientPf.cliStep envs w c0) g = cliRec w g) ∧
+    -- 2. any number of turns of other clients: record, bytes written to the descriptor, capacity of the descriptor
+    (∀ (x : Cli) (l : List Cli) (w : W), (∀ c ∈ l, c.id ≠ x.id) → (∀ c ∈ l, c.fd ≠ x.fd) →
+        cliRec (l.foldl (ClientPf.cliStep envs) w) x.id = cliRec w x.id ∧
+        ClientPf.written (l.foldl (ClientPf.cliStep envs) w).sys x.fd = ClientPf.written w.sys x.fd ∧
+        capOf (l.foldl (ClientPf.cliStep envs) w) x.fd = capOf w x.fd) ∧
+    -- 2'. in the loop a client's record is read and written in its own turn only
+    (∀ (x : Cli) (pre post : List Cli) (w : W), (∀ c ∈ pre, c.id ≠ x.id) → (∀ c ∈ post, c.id ≠ x.id) →
+        cliRec (pre.foldl (ClientPf.cliStep envs) w) x.id = cliRec w x.id ∧
+        cliRec ((pre ++ x :: post).foldl (ClientPf.cliStep envs) w) x.id =
+          cliRec (ClientPf.cliStep envs (pre.foldl (ClientPf.cliStep envs) w) x) x.id) ∧
+    -- 2''. a client for which the pass brings nothing (`QuietCli`: no event on its descriptor although output may be
+    --      waiting, no complete line buffered, not about to be destroyed): the loop runs as if its turn were skipped
+    (∀ (s : Cli) (pre post : List Cli) (w : W), IdsFresh w → (∀ c ∈ pre, c.id < w.nextId) → s ∈ w.clients →
+        (∀ c ∈ pre, c.id ≠ s.id) → QuietCli envs s →
+        (pre ++ s :: post).foldl (ClientPf.cliStep envs) w = (pre ++ post).foldl (ClientPf.cliStep envs) w) ∧
+    -- 3. not reported writable, survives without having quit: nothing written, the buffer only grows
+    (∀ (w : W) (c : Cli) (e : Option FdEnv) (c' : Cli), ClientPf.cpRev c e &&& 2 = 0 → (clientPass w c e).2 = some c' →
+        c'.quit = false →
+        (∃ b, c'.toBuf = c.toBuf ++ b) ∧ ClientPf.written (clientPass w c e).1.sys c.fd = ClientPf.written w.sys c.fd) ∧
+    -- 4. reported writable but the `write` would block (EAGAIN)
+    (∀ (w : W) (c : Cli), capOf w c.fd = 0 → c.quit = false → c.blocking = false → c.toBuf ≠ [] →
+        handleWrite w c = ({ w with sys := w.sys ++ [Sys.write c.fd [] false false] }, { c with quit := true })) ∧
+    -- 5. after `quit`: one blocking write of the whole buffer, whatever the capacity
+    (∀ (w : W) (c : Cli), c.quit = true → c.toBuf ≠ [] → ¬ capOf w c.fd < 0 →
+        handleWrite w c =
+          ({ w with sys := w.sys ++ [Sys.write c.fd c.toBuf false (decide (capOf w c.fd < (c.toBuf.length : Int)))] },
+           { c with blocking := true, toBuf := [] })) :=
+  ⟨fun w c0 => ⟨(clientPass_iso w c0 _).imp fun _ h => h.1, fun g hg => cliStep_other envs w c0 g hg⟩,
+   fun x l w h1 h2 => foldl_cliStep_frame envs x l w h1 h2,
+   fun x pre post w h1 h2 => foldl_cliStep_split envs x pre post w h1 h2,
+   fun s pre post w h hl hs hpre hq => foldl_cliStep_skip envs s pre post w h hl hs hpre hq,
+   fun w c e c' h1 h2 h3 => clientPass_unwritable w c e c' h1 h2 h3,
+   handleWrite_stuck, handleWrite_quit⟩
+
+/-- what `PassIso` says, spelled out: the fields of the world one client's share never writes (`kept`: the client table,
+    the id counter, the descriptor counters, …), the system-call log, the capacities, and the two outcomes -/
+theorem C11_PassIso_spelled (w : W) (c : Cli) (r : W × Option Cli) (ext : List Sys) (h : PassIso w c r ext) :
+    (r.1.clients = w.clients ∧ r.1.specs = w.specs ∧ r.1.nextId = w.nextId ∧ r.1.nacc = w.nacc ∧ r.1.nsock = w.nsock ∧
+      r.1.npair = w.npair ∧ r.1.nfork = w.nfork ∧ r.1.tmo = w.tmo ∧ r.1.pendingX = w.pendingX) ∧
+    r.1.sys = w.sys ++ ext ∧ (∀ s ∈ ext, sysFd s = some c.fd) ∧ (∀ fd, fd ≠ c.fd → capOf r.1 fd = capOf w fd) ∧
+    (∀ c', r.2 = some c' → c'.id = c.id ∧ c'.fd = c.fd ∧ (c.quit = true → c'.quit = true) ∧
+      Enq c.id w r.1 c.cmd c'.cmd ∧ ((∃ b, c'.toBuf = c.toBuf ++ b) ∨ ∃ s ∈ ext, isWrite s = true)) ∧
+    (r.2 = none → r.1.devs = w.devs ∧ r.1.store = w.store ∧ r.1.alNext = w.alNext ∧
+      (r.1.exited = w.exited ∨ r.1.exited = false)) := by
+  refine ⟨?_, h.sys, h.sysfd, h.caps, h.alive, h.gone⟩
+  have := h.kept
+  simp only [kept, Prod.mk.injEq] at this
+  exact this
+
+/- non-vacuity of 2'': both clients of the example world have output waiting (the banner was never taken) and are quiet in a
+   pass that brings no event -/
+example : (∀ c ∈ Two.w3.clients, QuietCli [] c) ∧ Two.w3.clients.map (·.toBuf.isEmpty) = [false, false] :=
+  ⟨Pm.Daemon.Ex.quietB_sound [] _ (by decide +kernel), by decide +kernel⟩
+
+/- non-vacuity of 3 and 4: client 2 of the example world, with output waiting and a descriptor that is not reported writable
+   while a request line arrives, keeps everything in its buffer; the hypotheses of 4 are satisfiable for it -/
+example : (cliRec Two.w3 2).map (fun c =>
+      (ClientPf.cpRev c (some { fd := 1001, rev := 1, rk := 0, data := Two.line, cap := 0 }) &&& 2,
+       (clientPass Two.w3 c (some { fd := 1001, rev := 1, rk := 0, data := Two.line, cap := 0 })).2.map fun c' =>
+         (c'.quit, c'.toBuf.drop c.toBuf.length))) =
+    some (0, some (false, bstr "208 Command in progress\r\n")) := by decide +kernel
+example : (cliRec Two.w3 2).map (fun c => (capOf { Two.w3 with caps := [(1001, 0)] } c.fd, c.quit, c.blocking, c.toBuf.isEmpty)) =
+    some (0, false, false, false) := by
+  decide +kernel
 
 end Pm.Props.C11
